@@ -42,8 +42,9 @@ fn main() {
         "C13" => c13::run(seed, tier, &mut out),
         "C11" => c11::run(seed, tier, &mut out),
         "C06" => c06::run(seed, tier, &mut out),
-        "C01" => bar::run(seed, tier, &mut out, true),
-        "C19" => bar::run(seed, tier, &mut out, false),
+        "C01" => bar::run(seed, tier, &mut out, true, false),
+        "C19" => bar::run(seed, tier, &mut out, false, false),
+        "C04B" => bar::run(seed, tier, &mut out, true, true),
         "C03" | "C02" | "C04" => multi::run(seed, tier, &mut out, false),
         "C03b" => multi::run(seed, tier, &mut out, true),
         _ => { eprintln!("unknown property {prop}"); std::process::exit(2); }
